@@ -47,6 +47,9 @@ LISTN = 'List Nat'
 OPTLISTN = 'Option (List Nat)'
 DICTNV = 'List (Nat × Sk.Val)'       # a dict index -> value, in insertion order
 DICTVN = 'List (Sk.Val × Nat)'       # a dict value -> index
+COUT = 'Sk.COut'                     # what one constraint says about one line (oracle)
+LISTC = 'List Sk.COut'
+PAIRB = 'Bool × Bool'
 BASE_OF = {}                          # optional type -> what it holds (filled below)
 NONE = 'None'                  # the constant None (coerced to the optional type it meets)
 OPTINT = 'Option Int'          # an int or None
@@ -288,7 +291,7 @@ def prop(cx, e):
         return f'({t} ≠ none)'
     if ty == LLINE:
         return f'(Sk.Py.lineLen {t} ≠ 0)'          # LogLine.__len__
-    if ty in (DICTNV, DICTVN, LISTN):
+    if ty in (DICTNV, DICTVN, LISTN, LISTC):
         return f'({t} ≠ [])'
     if ty == OPTLISTN:
         return f'({t} ≠ none ∧ {t} ≠ some [])'
@@ -466,6 +469,8 @@ def block(cx, stmts, k, loop=None):
                     f'let _pos : Int := _pos + {lname(nm)}.len\n' + after())
         if nm in cx.dead and not any(isinstance(n, ast.Call) for n in ast.walk(val)):
             return after()              # only read by (dropped) log calls
+        if nm in cx.spec.get('drop_assign', ()):
+            return after()              # e.g. the namedtuple class of the result
         t, ty = expr(cx, val)
         if ty == NONE:
             if id(s) in cx.dead_none:
@@ -514,6 +519,30 @@ def block(cx, stmts, k, loop=None):
         if loop is None:
             raise Untranslatable('continue outside a loop')
         return loop[0]()
+    if isinstance(s, ast.Try):
+        # try: if c.apply_to_line(line): B   except CouldNotApplyConstraint: H
+        # with c an oracle outcome: pass = returns True, fail = returns False, undec = raises
+        ok = (len(s.body) == 1 and isinstance(s.body[0], ast.If) and not s.body[0].orelse and
+              not s.orelse and not s.finalbody and len(s.handlers) == 1 and
+              isinstance(s.handlers[0].type, ast.Name) and
+              s.handlers[0].type.id == 'CouldNotApplyConstraint')
+        if ok:
+            t = s.body[0].test
+            ok = (isinstance(t, ast.Call) and isinstance(t.func, ast.Attribute) and
+                  t.func.attr == 'apply_to_line' and isinstance(t.func.value, ast.Name) and
+                  cx.types.get(t.func.value.id) == COUT and len(t.args) == 1)
+        if not ok:
+            raise Untranslatable(f'statement {unparse(s)}')
+        c = lname(s.body[0].test.func.value.id)
+        saved = dict(cx.types), list(cx.order)
+        t_pass = block(cx, s.body[0].body, after, loop)
+        cx.types, cx.order = dict(saved[0]), list(saved[1])
+        t_fail = after()
+        cx.types, cx.order = dict(saved[0]), list(saved[1])
+        t_undec = block(cx, s.handlers[0].body, after, loop)
+        cx.types, cx.order = saved
+        return (f'match {c} with\n| Sk.COut.pass =>\n{ind(t_pass)}\n| Sk.COut.fail =>\n'
+                f'{ind(t_fail)}\n| Sk.COut.undec =>\n{ind(t_undec)}')
     if isinstance(s, ast.Assert):
         return f'if {prop(cx, s.test)} then\n{ind(after())}\nelse\n  Sk.Py.Res.exc "AssertionError"'
     if isinstance(s, ast.If) and (needs_flow(cx, s.test) or flow_compare(cx, s.test)):
@@ -610,6 +639,10 @@ def block(cx, stmts, k, loop=None):
                 it.func.attr == 'items' and not it.args:
             lst, tl = expr(cx, it.func.value)
             pair = True
+        elif isinstance(it, ast.Call) and isinstance(it.func, ast.Attribute) and \
+                it.func.attr == 'values' and not it.args and \
+                unparse(it.func.value) in cx.spec.get('consts', {}):
+            lst, tl = expr(cx, it.func.value)        # the values of a dict given as their list
         else:
             lst, tl = expr(cx, it)
         if tl == OPTLISTN:
@@ -629,9 +662,10 @@ def block(cx, stmts, k, loop=None):
                 raise Untranslatable(f'statement {unparse(s)}')
             names, tys, elt = [x.id for x in s.target.elts], [NAT, VAL], 'Nat × Sk.Val'
         else:
-            if tl != LISTN or not isinstance(s.target, ast.Name):
+            if tl not in (LISTN, LISTC) or not isinstance(s.target, ast.Name):
                 raise Untranslatable(f'statement {unparse(s)}')
-            names, tys, elt = [s.target.id], [NAT], 'Nat'
+            names, tys, elt = ([s.target.id], [NAT], 'Nat') if tl == LISTN else \
+                ([s.target.id], [COUT], 'Sk.COut')
         cx.nloops += 1
         name = f"{cx.spec['name']}.loop{cx.nloops}"
         vars_ = cx.defined()
@@ -993,6 +1027,15 @@ def _logline(cx, e):
     return f'(Sk.LLine.mk {a} {b})', LLINE
 
 
+def _result_pair(cx, e):
+    if len(e.args) != 2 or e.keywords:
+        raise Untranslatable(f'Result form {unparse(e)}')
+    (a, ta), (b, tb) = expr(cx, e.args[0]), expr(cx, e.args[1])
+    need(ta, BOOL, unparse(e))
+    need(tb, BOOL, unparse(e))
+    return f'({a}, {b})', PAIRB
+
+
 def _is_line_feed(cx, e):
     if len(e.args) != 1 or e.keywords:
         raise Untranslatable(f'_is_line_feed form {unparse(e)}')
@@ -1096,6 +1139,14 @@ FUNCS = [
                  'self.extracted_datetime(line)': ('ts', OPTDT)},
          callees={'self._line_date_is_valid': 'line_date_is_valid'},
          state_out=['self__line_pass', 'self__line_fail'], py_args=['line'], fuel=False),
+    # SearchConstraintsManager.apply_single: what each of the search's constraints says about
+    # the line is the oracle list `outs` (in the order of searchdef.constraints)
+    dict(name='apply_single', file='search.py', cls='SearchConstraintsManager',
+         func='apply_single', params=[], ret=PAIRB, lean_ret='Bool × Bool',
+         ctx='(outs : List Sk.COut)', ctx_args='outs',
+         consts={'searchdef.constraints': ('outs', LISTC)},
+         calls={'Result': lambda cx, e: _result_pair(cx, e)},
+         drop_assign=('Result',), py_args=['searchdef', 'line'], static=True, fuel=False),
     # --- the de-duplicating store (results_store.py): dicts are association lists in insertion
     # order, the pre-allocator is the oracle `alloc` (k-th block it hands out) with a counter
     dict(name='allocations', file='results_store.py', cls='ResultStoreBase', func='allocations',
@@ -1155,8 +1206,9 @@ def translate_one(repo, spec):
     if not spec.get('only_targets'):
         named = spec.get('py_args') or [pn for pn, _ in spec['params']
                                          if pn != '_pos' and not pn.startswith('self_')]
-        if have[1:] != named:
-            raise Untranslatable(f"{spec['func']} takes {have[1:]}, the bridge expects {named}")
+        got = have if spec.get('static') else have[1:]
+        if got != named:
+            raise Untranslatable(f"{spec['func']} takes {got}, the bridge expects {named}")
     body = list(fn.body)
     if spec.get('only_targets'):
         # keep the statements that assign one of the named attributes (whole if-statements
